@@ -285,3 +285,7 @@ def run(ctx, report: Report) -> None:
     iframe_policy(ctx, r5, 'css_match.CSSMatch.match_empty', lambda: [el_obj('e')], lambda html, restrict: False,
                   ':empty looks at the element\'s own children - an iframe element with children is not empty')
 
+    from .sem import descendants_table
+    descendants_table(ctx, r2)
+
+
